@@ -22,14 +22,26 @@
                         five-token \end of verbatim environments; no bare-token
                         mandatory argument).
 
-   What is proved: re-parsing the serialised text yields the same tree up to
-   positions and the identical text, OR raises EOFError / TypeError /
-   AssertionError (C16_reparse_outcome).  What is not proved: that it cannot
-   raise.  The second run provably follows the first one branch by branch
-   (C16_drop_run: any successful run on the kept tokens returns the same value);
-   the only points where it could fail are the look-ahead peeks of read_item /
-   read_env (a whole command is parsed ahead and discarded), which in the second
-   run range over tokens whose spacers were dropped by another run. *)
+     frag toks          the look-ahead peeks of read_item / read_env (a whole
+                        command is parsed ahead and discarded) are shallow:
+                        every \item is plain (no `[label]`, no group right after
+                        it), and every \end is followed either by no group or by
+                        a simple name group which is itself followed by no group
+                        (after an optional spacer).
+
+   What is proved
+     C16_fixed_point     for documents in `frag`: re-parsing the serialised text
+                         SUCCEEDS, yields the same tree up to positions, and
+                         serialises to the identical text.
+     C16_reparse_outcome for all documents: re-parsing yields the same tree up
+                         to positions and the identical text, OR raises EOFError /
+                         TypeError / AssertionError.
+   What is not proved: that outside `frag` the second parse cannot raise.  The
+   second run provably follows the first one branch by branch (C16_drop_run: any
+   successful run on the kept tokens returns the same value); the only points
+   where it could fail are deep look-ahead peeks (`\item[...]`, `\end{x}{...}`),
+   which in the second run range over tokens whose spacers were dropped by a
+   different run. *)
 From Coq Require Import List NArith ZArith Bool.
 From TexModel Require Import Base Tables Chars Tokenizer Tree Reader.
 From TexProofs Require Import ReaderLen ReaderCons ConsBridge FixedPoint.
@@ -42,7 +54,8 @@ Theorem C16_drop_run :
   forall (toks : list token) (user : list str) (t : expr),
     Hyp (all_skip user) toks -> parse_tokens toks true user = Ok t -> nobare t = true ->
     exists kept, Kept toks kept /\ estr t = texts kept /\
-      forall t', parse_tokens kept true user = Ok t' -> t' = t.
+      (forall t', parse_tokens kept true user = Ok t' -> t' = t) /\
+      (frag toks = true -> parse_tokens kept true user = Ok t).
 Proof. exact parse_tokens_drop_run. Qed.
 Print Assumptions C16_drop_run.
 
@@ -77,9 +90,23 @@ Theorem C16_retokenize :
     drop_ctx_ok (fst (tokens_of_string s)) = true ->
     exists kept, Kept (fst (tokens_of_string s)) kept /\ estr t = texts kept /\
       tokens_of_string (estr t) = (TokInverse.repos 0 kept, TEnd) /\
-      (forall t', parse_tokens kept true user = Ok t' -> t' = t).
+      (forall t', parse_tokens kept true user = Ok t' -> t' = t) /\
+      (frag (fst (tokens_of_string s)) = true -> parse_tokens kept true user = Ok t).
 Proof. exact FixedPoint.C16_retokenize. Qed.
 Print Assumptions C16_retokenize.
+
+(* C16 in full on the fragment with shallow peeks *)
+Theorem C16_fixed_point :
+  forall (s : str) (user : list str) (t : expr),
+    parse s true user = Ok t ->
+    TokInverse.clean s = true -> TokInverse.start_quirk s = false ->
+    TokInverse.start_quirk (estr t) = false ->
+    hypb (all_skip user) (fst (tokens_of_string s)) = true -> nobare t = true ->
+    drop_ctx_ok (fst (tokens_of_string s)) = true ->
+    frag (fst (tokens_of_string s)) = true ->
+    exists t', parse (estr t) true user = Ok t' /\ expr_pos_sim t t' /\ estr t' = estr t.
+Proof. exact FixedPoint.C16_fixed_point. Qed.
+Print Assumptions C16_fixed_point.
 
 (* the general fixed-point statement, up to the success of the second parse *)
 Theorem C16_reparse_outcome :
@@ -120,6 +147,19 @@ Proof.
   split; [exact exB_reparses | exact exB_fixed_point].
 Qed.
 Print Assumptions C16_example_200.
+
+(* non-vacuity of C16_fixed_point: a 248-character document with nested
+   itemize / enumerate (plain items), ten argument spacers, math, a comment; the
+   success of the second parse is CONCLUDED, not computed *)
+Theorem C16_example_items :
+  length exD = 248%nat /\ length (estr treeD) = 238%nat /\ parse exD true [] = Ok treeD /\
+  frag (fst (tokens_of_string exD)) = true /\
+  exists t', parse (estr treeD) true [] = Ok t' /\ expr_pos_sim treeD t' /\ estr t' = estr treeD.
+Proof.
+  split; [apply exD_size|]. split; [apply exD_size|]. split; [exact exD_parses|].
+  split; [exact exD_frag | exact exD_fixed_point].
+Qed.
+Print Assumptions C16_example_items.
 
 (* the side conditions are needed (witnesses replayed on the real code):
    '\left {x}' -> '\left{x}' parses to a command named 'left{' *)
